@@ -21,6 +21,10 @@ def _params():
                     for fn in (FN_FLAT if flat else FN_MAP):
                         for efn in (EFN_FLAT if flat else EFN_MAP):
                             out.append(dict(flat=flat, form=form, inp=inp, timing=timing, fn=fn, efn=efn))
+                            if timing == "later" and (efn is None or fn in ("fut_cancelled", "fut_later")):
+                                # a cancel() of the output is refused first (input already running);
+                                # the laws must hold unchanged afterwards
+                                out.append(dict(flat=flat, form=form, inp=inp, timing=timing, fn=fn, efn=efn, refused=True))
     return out
 
 
@@ -94,8 +98,11 @@ def body(mc, p):
                     src.set_exception(e)
         out = F.f_flat_map(src, **kw) if p["flat"] else F.f_map(src, **kw)
     mc.emit("before", s=snapshot(out))
+    if p.get("refused"):
+        src.set_running_or_notify_cancel()
+        mc.emit("refused.cancel", ret=out.cancel())
     if p["timing"] == "later":
-        if p["form"] == "executor":
+        if p["form"] == "executor" and not p.get("refused"):
             if p["inp"] == "ok":
                 base.complete(0, "x")
             else:
@@ -104,7 +111,8 @@ def body(mc, p):
                 except E as e:
                     base.complete(0, exc=e)
         else:
-            src.set_running_or_notify_cancel()
+            if not p.get("refused"):
+                src.set_running_or_notify_cancel()
             if p["inp"] == "ok":
                 src.set_result("x")
             else:
@@ -187,6 +195,8 @@ def check(x):
     if same is True:
         x.require(x.obs["same"] is True, "exception-not-same-object")
         x.require(x.obs["tb_has_origin"] is True, "traceback-lost")
+    for e in x.events("refused.cancel"):
+        x.require(e["ret"] is False, "cancel-true-while-input-running")
     if p["fn"] == "fut_later" and p["inp"] == "ok":
         x.require(x.obs["mid"][0] == "pending", "resolved-before-inner-future")
 
